@@ -7,7 +7,8 @@ From PyGql Require Import Lang.PrinterModel Spec.PrinterSpec Lang.Parser Spec.Gr
                           Proofs.PrinterRoundtrip Proofs.PrinterSdlRoundtrip.
 From PyGql Require Import Spec.SdlSpec Schema.SdlPrint Spec.SdlRoundtripSpec.
 From PyGql Require Import Proofs.SdlProofs Proofs.SdlExactProofs Proofs.SdlOrderProofs Proofs.SdlPrintProofs
-                          Proofs.SdlTextProofs Proofs.SdlTextSchemaProofs Proofs.SdlDocRoundtripProofs.
+                          Proofs.SdlTextProofs Proofs.SdlTextSchemaProofs Proofs.SdlDocRoundtripProofs
+                          Proofs.SdlValidInvProofs Proofs.SdlDocRulesProofs.
 From Coq Require Import Lia Sorting.Permutation Sorting.Sorted.
 
 Lemma plain_ivalues sc a : plain_schema sc -> In a (schema_ivalues sc) -> plain_siv a.
@@ -60,7 +61,7 @@ Qed.
 
 (* C12_text_roundtrip for plain schemas *)
 Theorem text_roundtrip_plain intro spec o fl sc text :
-  plain_schema sc -> valid_locations sc -> schema_okb sc = true -> sdl_rules_ok (doc_of sc) ->
+  plain_schema sc -> valid_locations sc -> schema_okb sc = true ->
   po_introspection o = false ->
   no_location fl = true -> allow_type_system fl = true -> all_ws (po_indent o) ->
   print_schema intro spec o sc = Ok text ->
@@ -69,8 +70,10 @@ Theorem text_roundtrip_plain intro spec o fl sc text :
                 /\ roundtrip_equiv sc' sc = true
                 /\ declares_again sc sc'.
 Proof.
-  intros Hp Hl Hok Hrules Hi Hnl Hts Hws Hprint.
+  intros Hp Hl Hok Hi Hnl Hts Hws Hprint.
   destruct (text_parses_to_ast intro spec o fl sc text Hp Hl Hi Hnl Hts Hws Hprint) as [Hparse Hast].
+  assert (Hrules : sdl_rules_ok (doc_of sc)).
+  { apply (ast_rules_ok sc (doc_of sc) Hok Hast). intros a Ha. apply (plain_default_rt _ _ sc a Hp Ha). }
   exists (doc_of sc), (declared (doc_of sc)). split; [exact Hparse|].
   destruct (members_roundtrip_doc sc (doc_of sc) Hok Hast
               (fun a Ha => plain_default_rt _ _ sc a Hp Ha) Hrules (plain_defaults_stable sc)) as (Hb & He & _).
@@ -282,7 +285,7 @@ Proof.
 Qed.
 
 Theorem text_roundtrip_fixpoint_plain intro spec o fl sc text :
-  plain_schema sc -> valid_locations sc -> schema_okb sc = true -> sdl_rules_ok (doc_of sc) ->
+  plain_schema sc -> valid_locations sc -> schema_okb sc = true ->
   po_introspection o = false ->
   no_location fl = true -> allow_type_system fl = true -> all_ws (po_indent o) ->
   print_schema intro spec o sc = Ok text ->
@@ -291,11 +294,12 @@ Theorem text_roundtrip_fixpoint_plain intro spec o fl sc text :
                 /\ roundtrip_equiv sc' sc = true
                 /\ print_schema intro spec o sc' = Ok text.
 Proof.
-  intros Hp Hl Hok Hrules Hi Hnl Hts Hws Hprint.
-  destruct (text_roundtrip_plain intro spec o fl sc text Hp Hl Hok Hrules Hi Hnl Hts Hws Hprint)
+  intros Hp Hl Hok Hi Hnl Hts Hws Hprint.
+  destruct (text_roundtrip_plain intro spec o fl sc text Hp Hl Hok Hi Hnl Hts Hws Hprint)
     as (d & sc' & H1 & H2 & H3 & H4).
   exists d, sc'. repeat split; try assumption. rewrite <- Hprint. apply fixpoint_plain; try assumption.
   unfold schema_okb in Hok.
+  apply andb_prop in Hok; destruct Hok as [Hok _].
   apply andb_prop in Hok; destruct Hok as [Hok _].
   apply andb_prop in Hok; destruct Hok as [Hok _].
   apply andb_prop in Hok; destruct Hok as [Hok _].
